@@ -88,7 +88,18 @@ def scenario(rng, reactive=False, crash=True):
         crash_at = rng.randint(0, n)
         crashed = rng.sample(names, rng.randint(1, len(names) - 1))
     return {'names': names, 'phens': phens, 'cache': rng.choice((0, 1000)), 'stream': stream, 'assign': assign,
-            'crash_at': crash_at, 'crashed': crashed, 'made': rng.choice((None, None, 'dup', 'uniq')), 'boxed': rng.random() < 0.3}
+            'crash_at': crash_at, 'crashed': crashed, 'made': rng.choice((None, None, 'dup', 'uniq', 'frac')), 'boxed': rng.random() < 0.3}
+
+
+def hist_key_ts(hist_text: str) -> str:
+    """history compared by (group, timestamp, kind, data)"""
+    out = []
+    for g in hist_text.split(';'):
+        if not g:
+            continue
+        name, evs = g.split('=')
+        out.append(name + '=' + '.'.join(':'.join(e.split(':')[1:]) for e in evs.split('.')))
+    return ';'.join(out)
 
 
 def run_one(sc):
@@ -114,8 +125,9 @@ def run_one(sc):
             # one), clocks out of step.  Cluster and single engine get equal events (distinct objects).
             if sc.get('made'):
                 from bobocep.cep.event import BoboEventSimple
+                # ('frac': the sources stamp in fractions of a second -- time.time() -- which the engine carries as given)
                 mk = lambda: BoboEventSimple(event_id='x%d' % (k % 3 if sc['made'] == 'dup' else k),     # noqa
-                                             timestamp=100 + (k * 7919) % 7, data=d)
+                                             timestamp=100 + (k * 7919) % 7 + (0.25 * (k % 4 + 1) if sc['made'] == 'frac' else 0), data=d)
                 c.input(tgt, mk())
                 c.sync()
                 single.input(mk())
@@ -132,11 +144,14 @@ def run_one(sc):
             bad = ('component-raised', f"{e.__class__.__name__}: {e}", k)
             break
         # survivors hold exactly the single engine's partially completed runs (pattern, position, history content)
+        # (where the SOURCES stamped the events, cluster and single engine were given equal timestamps: compared too)
+        hkey = hist_key_ts if sc.get('made') else hist_key
+
         def partial(inst):
             out = Counter()
             for r in inst.decider.all_runs():
                 f = pl.show_rec(r.serialize()).split('|')        # id|phen|pat|idx|hist
-                out[(f[1], f[2], f[3], hist_key(f[4]))] += 1
+                out[(f[1], f[2], f[3], hkey(f[4]))] += 1
             return out
         pref = partial(single)
         for n in alive:
@@ -148,9 +163,9 @@ def run_one(sc):
                 break
         if bad:
             break
-        ref = Counter((e[1], hist_key(e[2])) for e in single.cerec.events)
+        ref = Counter((e[1], hkey(e[2])) for e in single.cerec.events)
         for n in alive:
-            got = Counter((e[1], hist_key(e[2])) for e in c.insts[n].cerec.events)
+            got = Counter((e[1], hkey(e[2])) for e in c.insts[n].cerec.events)
             if got != ref:
                 extra = list((got - ref).elements())[:2]
                 miss = list((ref - got).elements())[:2]
@@ -201,7 +216,7 @@ def run(ctx: Ctx) -> Result:
                     for crashed in ([[]] if crash_at is None else [['A'], ['B']]):
                         scs.append({'names': ['A', 'B'], 'phens': LOOPY_INERT if st[1] == 1 else gc.CONFLICT, 'cache': 1000,
                                     'stream': st, 'assign': list(assign), 'crash_at': crash_at, 'crashed': crashed,
-                                    'made': (None, 'dup', None, 'uniq')[(len(scs)) % 4], 'boxed': len(scs) % 8 == 2})
+                                    'made': (None, 'dup', None, 'uniq', None, 'frac')[(len(scs)) % 6], 'boxed': len(scs) % 8 == 2})
         # three instances without finished-run memory: one instance processes the whole stream, another one is lost at
         # every point (its backlog grows on the processing instance while the third one keeps being served)
         for proc in 'ABC':
@@ -220,7 +235,7 @@ def run(ctx: Ctx) -> Result:
                                 'crash_at': crash_at, 'crashed': crashed, 'via_setup': True})
     for sc in scs:
         bad, holder, fb = run_one(sc)
-        if not sc.get('via_setup'):        # (setup-built engines draw time-based identifiers: oracle only, no model replay)
+        if not sc.get('via_setup') and sc.get('made') != 'frac':        # (setup-built engines draw time-based identifiers, the model's clock counts whole seconds: oracle only, no model replay)
             holders.append(holder)
         res.add_case({k: sc[k] for k in ('names', 'stream', 'assign', 'crash_at', 'crashed')}, nontrivial=True)
         res.count('crash_scenarios' if sc['crash_at'] is not None else 'no_crash_scenarios')
